@@ -328,7 +328,68 @@ class Flow:
                 return (("fmt", v, None, -1),)
             if textual(l) or textual(r):
                 return flatten_fstr(("fstr", parts(l) + parts(r)))
+        if isinstance(n.op, ast.Mod) and l[0] == "const" and isinstance(l[1], str):
+            fs = self._percent_to_fstr(l[1], r)
+            if fs is not None:
+                return fs
         return ("binop", type(n.op).__name__, l, r)
+
+    @staticmethod
+    def _percent_to_fstr(text, arg):
+        """'%s * pow(T, %10.3e)' % (a, b) as the f-string it is equal to (%s %d %i %f %e %g %r with flags / width / precision, %%,
+        %(name)s with a dict display); None for anything else (*, unknown conversions, wrong number of arguments)."""
+        import re as _re
+        args = list(arg[1]) if arg[0] == "tuple" else None
+        named = {k[1]: v for k, v in arg[1] if k[0] == "const"} if arg[0] == "dict" else None
+        parts, pos, auto = [], 0, 0
+        for m in _re.finditer(r"%(?:\((\w+)\))?([-+ 0#]*)(\d+)?(?:\.(\d+))?([sdifeEgGr%])", text):
+            if m.start() > pos:
+                parts.append(("const", text[pos:m.start()]))
+            pos = m.end()
+            name, flags, width, prec, conv = m.groups()
+            if conv == "%":
+                if name or flags or width or prec:
+                    return None
+                parts.append(("const", "%"))
+                continue
+            if name is not None:
+                if named is None or name not in named:
+                    return None
+                val = named[name]
+            elif named is not None:
+                return None
+            elif args is None:
+                if auto:
+                    return None
+                val = arg
+                auto += 1
+            else:
+                if auto >= len(args) or args[auto][0] == "star":
+                    return None
+                val = args[auto]
+                auto += 1
+            if "#" in flags or " " in flags:
+                return None
+            spec = ("<" if "-" in flags else "") + ("+" if "+" in flags else "") + ("0" if "0" in flags and "-" not in flags else "") + (width or "") \
+                + ("." + prec if prec is not None else "")
+            if conv in "sr":
+                spec = (">" + spec if width and "-" not in flags else spec) if spec else ""
+            else:
+                spec += "d" if conv == "i" else conv
+            if conv in "sr" and not spec:
+                if conv == "s" and val[0] == "const" and isinstance(val[1], str):
+                    parts.append(val)
+                else:
+                    parts.append(("fmt", val, None, ord("r") if conv == "r" else -1))
+            else:
+                parts.append(("fmt", val, spec or None, ord("r") if conv == "r" else -1))
+        if "%" in _re.sub(r"%(?:\((\w+)\))?([-+ 0#]*)(\d+)?(?:\.(\d+))?([sdifeEgGr%])", "", text):
+            return None
+        if args is not None and auto != len(args):
+            return None
+        if pos < len(text):
+            parts.append(("const", text[pos:]))
+        return flatten_fstr(("fstr", tuple(parts)))
 
     def e_UnaryOp(self, n):
         return ("unop", type(n.op).__name__, self.ev(n.operand))
@@ -1291,7 +1352,7 @@ def simp(v):
         return simp(("comp", "list", v[1][2], ((tg, ("sub", it, v[2]), ()),)))
     # ... and one element of it is the element expression at that position: [f(x) for x in L][k] == f(L[k])  (also when the
     # comprehension is destructured: `a, *mid, z = [f(x) for x in L]`)
-    if k in ("sub", "item") and v[1][0] == "comp" and v[1][1] == "list" and len(v[1][3]) == 1 and not v[1][3][0][2] \
+    if k in ("sub", "item") and v[1][0] == "comp" and (v[1][1] == "list" or (v[1][1] == "gen" and k == "item")) and len(v[1][3]) == 1 and not v[1][3][0][2] \
             and v[1][3][0][0] is not None and v[1][3][0][0][0] == "bv":
         tg, it, _ = v[1][3][0]
         pos = v[2]
